@@ -302,8 +302,9 @@ fn c11_family<S: Sch>(t: Tier, seed: u64, out: &mut Vec<Entry>) {
         c.sz.ligero.2 = false;
         add("hist-oo-no-wellformedness", c, Box::new(|c| c11::lockstep::<S>(c, &[Op::Open(0), Op::Open(1)])), false);
     }
-    if name != "hyrax" {
-        // rejection under another transcript (concrete non-constant polynomials; Hyrax accepts any claim, see C02)
+    {
+        // rejection under another transcript (concrete non-constant polynomials). Hyrax included: its verifier
+        // ignores the claimed value (C02 finding) but its equations depend on the transcript challenge.
         let mut c = mk(conc(1), 1, vec![(0, 0)]);
         c.sym_ch = false;
         add("prestate-differs", c.clone(), Box::new(|c| c11::prestate::<S>(c, false)), false);
@@ -344,6 +345,10 @@ fn c05_family<S: Sch>(t: Tier, seed: u64, out: &mut Vec<Entry>) {
     add("equiv-honest-3p3z", mk(3, 3, vec![(0, 0), (1, 0), (1, 1), (2, 1), (2, 2), (0, 2)]), Box::new(|c| c05::equiv::<S>(c, 2, true)));
     add("equiv-1p3z", lin(mk(1, 3, vec![(0, 0), (0, 1), (0, 2)])), Box::new(|c| c05::equiv::<S>(c, 4, false)));
     add("equiv-2p3z", lin(mk(2, 3, vec![(0, 0), (1, 0), (0, 1), (1, 2)])), Box::new(|c| c05::equiv::<S>(c, 4, false)));
+    if matches!(name, "marlin" | "sonic" | "pst13") {
+        add("equiv-forged-w-2p2z", lin(mk(2, 2, vec![(0, 0), (1, 0), (0, 1), (1, 1)])), Box::new(|c| c05::equiv_mode::<S>(c, 3, false, true)));
+        add("equiv-forged-w-1p3z", lin(mk(1, 3, vec![(0, 0), (0, 1), (0, 2)])), Box::new(|c| c05::equiv_mode::<S>(c, 4, false, true)));
+    }
     if !quick {
         add("equiv-3p3z", lin(mk(3, 3, vec![(0, 0), (1, 0), (1, 1), (2, 1), (2, 2), (0, 2)])), Box::new(|c| c05::equiv::<S>(c, 4, false)));
     }
@@ -548,7 +553,7 @@ fn catalogue_inner(prop: &str, t: Tier, seed: u64, out: &mut Vec<Entry>) {
             macro_rules! lin {
                 ($S:ty, $len:expr) => {{
                     let name = <$S as Sch>::NAME;
-                    for (id, m) in [("cols+v-symbolic", LcMut::ColsSymbolic), ("cols-symbolic", LcMut::ColsOnlySymbolic), ("v-stretch", LcMut::VStretch), ("wf-absent", LcMut::WfAbsent), ("wf+v-symbolic", LcMut::WfSymbolic), ("cols-dup", LcMut::ColsDup), ("path-otherleaf", LcMut::PathOtherLeaf)] {
+                    for (id, m) in [("cols+v-symbolic", LcMut::ColsSymbolic), ("cols-symbolic", LcMut::ColsOnlySymbolic), ("v-stretch", LcMut::VStretch), ("wf-absent", LcMut::WfAbsent), ("wf+v-symbolic", LcMut::WfSymbolic), ("cols-dup", LcMut::ColsDup), ("path-otherleaf", LcMut::PathOtherLeaf), ("leaf-rotate", LcMut::LeafRotate)] {
                         let mut c = Cfg::new(std_size::<$S>(t, 0), vec![PolySpec::new($len).conc()]);
                         c.seed = seed;
                         c.sym_points = false;
